@@ -39,7 +39,7 @@ theorem jit_prologue_sim (env : Env) (haddr : Nat → Option Nat) (um : Bool) (c
   obtain ⟨i0, hi0⟩ := h0
   obtain ⟨l, hl0⟩ := hst0 0 i0 hi0
   rw [hl0] at hcs
-  obtain ⟨k, σ', retAddr, top, hst, hrel0, htop, hrip, hpad, hsaved⟩ :=
+  obtain ⟨k, σ', retAddr, top, hst, hrel0, htop, hrip, hpad, hsaved, -⟩ :=
     entry_prologue um c L m σ tgt l hexit hcs (hloc 0 l hl0) hsize he
   exact ⟨k, σ', retAddr, top, hst, ⟨hrel0, htop, ⟨i0, hi0⟩, ⟨l, hl0, hrip⟩⟩, hpad, hsaved⟩
 
@@ -54,8 +54,10 @@ theorem jit_epilogue_sim (env : Env) (haddr : Nat → Option Nat) (um : Bool) (c
     (hrsp : (σ.get X86.RSP).toNat = s'.mem.stack.base) (htb : topBytes σ s' = some top) :
     ∃ k σ', X86.run c σ k = .done r0 σ' ∧ σ'.mem = σ.mem ∧
       σ'.get 3 = σ0.get 3 ∧ σ'.get 5 = σ0.get 5 ∧ σ'.get 13 = σ0.get 13 ∧ σ'.get 14 = σ0.get 14 ∧ σ'.get 15 = σ0.get 15 ∧
-      (σ'.get X86.RSP).toNat = s'.mem.stack.base + 560 :=
-  entry_epilogue_sim env haddr um c L σ0 σ s' retAddr top r0 hv hsize hpad htop hrip hrax hmem hrsp htb
+      (σ'.get X86.RSP).toNat = s'.mem.stack.base + 560 := by
+  obtain ⟨k, σ', h1, h2, h3, h4, h5, h6, h7, h8, -⟩ :=
+    entry_epilogue_sim env haddr um c L σ0 σ s' retAddr top r0 hv hsize hpad htop hrip hrax hmem hrsp htb
+  exact ⟨k, σ', h1, h2, h3, h4, h5, h6, h7, h8⟩
 
 /-- **From call to return.**  For a program all of whose instructions are covered (no calls), a code buffer that
     passes `validate`, entered under the calling convention, returns — as a machine run — the value every returning
